@@ -6,7 +6,7 @@ Model of the arc-ordering helpers `utils.short_arc`, `right_to_left`, `arc_inclu
 import Mathlib.Algebra.Order.Field.Basic
 import Mathlib.Order.Defs.LinearOrder
 
-namespace GT
+namespace GT.Arcs
 
 variable {K : Type*} [Field K] [LinearOrder K]
 
@@ -33,4 +33,4 @@ def arcInclude (pi : K) (t : K × K) (ref : K) : K × K :=
 /-- congruence modulo `2π` -/
 def CongPi (pi a b : K) : Prop := ∃ k : ℤ, a - b = k * (2 * pi)
 
-end GT
+end GT.Arcs
